@@ -102,5 +102,10 @@ ExportHostile ==
   \A n \in 1..Len(HostileNames) : \A k \in 1..Len(HostileQ) :
      PrintT(<<"REPLAY", ToJson([id |-> <<"hostile", "", n * 10 + k>>, q |-> HostileQ[k], verdict |-> "valid",
                                 doc |-> JObj(<<HostileNames[n]>>, <<JArr(<<JInt(1), JObj(<<HostileNames[n]>>, <<JArr(<<JInt(1)>>)>>)>>)>>)])>>)
-Export == (pc = "idle" /\ calls = 0) => (ExportCases /\ ExportHostile)
+\* many DISTINCT regular expressions evaluated one after the other in the same process (state kept between calls)
+ExportPatterns ==
+  \A k \in 1..(IF Thorough THEN 600 ELSE 150) :
+     PrintT(<<"REPLAY", ToJson([id |-> <<"pattern", "", k>>, verdict |-> "valid", doc |-> JArr(<<JStr(<<112, 49>>), JStr(<<97>>), JInt(1)>>),
+                                q |-> <<36, 91, 63>> \o (IF k % 2 = 0 THEN FnNameCP("match") ELSE FnNameCP("search")) \o <<40, 64, 44, 39, 112>> \o DecDigits(k) \o <<46, 42, 39, 41, 93>>])>>)
+Export == (pc = "idle" /\ calls = 0) => (ExportCases /\ ExportHostile /\ ExportPatterns)
 =============================================================================
